@@ -595,6 +595,6 @@ def tasks(tier, seed):
         ts.append(dict(id="C01.L2.trunc.%02d" % i, fn="task_skeletons", kwargs=dict(seed=seed * 1000 + 500 + i, n=25 if tier == "quick" else 60, depth=2, width=2,
                                                                               trunc=True), timeout=3000))
     ts.append(dict(id="C01.reject", fn="task_reject", kwargs=dict(seed=seed, n=200), timeout=600))
-    for h in ("_h_get_charge", "_h_charge_tail", "_h_parts_all_prefixes", "_h_parts_greek_radical", "_h_leading_integer"):
+    for h in ("_h_get_charge", "_h_charge_tail", "_h_charge_tail_junk", "_h_parts_all_prefixes", "_h_parts_greek_radical", "_h_leading_integer"):
         ts.append(dict(id="C01.L3.%s" % h[3:], fn="task_lexing", kwargs=dict(tier=tier, only=h), timeout=5000))
     return ts
